@@ -463,7 +463,7 @@ def explore_pair(ctx, pi, mode):
         ctx.count('obs.random_schedules')
     # line-granular points (thorough: every pair; quick: the pairs whose statements shorten texts -- the state a function keeps
     # between two of its own lines is out of reach of the node-level points)
-    fine = any(x in label for x in ('journal', 'balances'))
+    fine = any(x in label for x in ('journal', 'balances', 'prices', 'txns', 'notes-events', 'accounts'))
     if (not ctx.quick or fine) and hasattr(sys, 'monitoring'):
         for r in range(6 if not ctx.quick else 14):
             srng = ctx.rng('line', pi, mode, r)
